@@ -21,8 +21,7 @@ TT = "vaporetto::tag_trainer::TagTrainer"
 
 
 def run(chk):
-    w = facts.world("W")
-    chk.configs.add("W")
+    w = C.world_for(chk)
     for rid, txt in (("R12.1", "distinct tags recorded exactly once with consecutive ids"), ("R12.2", "= R06.2"),
                      ("R12.3", "default tags only for absent tokens"), ("R12.4", "label <-> column agreement of the three stores")):
         chk.rule(rid, txt)
